@@ -508,4 +508,18 @@ example : blockConfLoad true (some [⟨some true, some [101], some (some [68], s
 
 example : realmClean [82, 101] = true := by decide
 
+/-! ## hot reload -/
+
+/-- **reload**: after any history of reloads the table is the LAST conf, so every handler result (any function
+    `handle` of the table) is the one the last conf alone gives. -/
+theorem C51_reload_last_conf {C R : Type} (handle : Option C → R) (cs : List C) (c : C) :
+    tableAfter (cs ++ [c]) = some c ∧ handle (tableAfter (cs ++ [c])) = handle (tableAfter [c]) := by
+  have h : tableAfter (cs ++ [c]) = some c := by
+    unfold tableAfter
+    rw [List.foldl_append]
+    rfl
+  exact ⟨h, by rw [h]; rfl⟩
+
+example : tableAfter [1, 2, 3] = some 3 := by decide
+
 end BfeVerif.C51
